@@ -26,8 +26,7 @@ pub open spec fn prepend(p: Seq<u8>, o: Option<Seq<u8>>) -> Option<Seq<u8>> {
 pub open spec fn opt_eq(x: Option<Seq<u8>>, y: Option<Seq<u8>>) -> bool {
     match (x, y) { (Some(a), Some(b)) => a =~= b, (None, None) => true, _ => false }
 }
-/// left-to-right: `\0oo` octal byte, `\xhh` hex byte, `\\` one backslash, `\`+c both kept (c truncated to a byte, as
-/// the code does), a lone trailing `\` is an error, every other char contributes its UTF-8 encoding
+/// left-to-right: `\0oo` octal byte, `\xhh` hex byte, `\\` one backslash, `\`+c both kept (they are not an escape sequence: the backslash and the UTF-8 encoding of c), a lone trailing `\` is an error, every other char contributes its UTF-8 encoding
 pub open spec fn resolve(s: Seq<char>) -> Option<Seq<u8>> decreases s.len() {
     if s.len() == 0 { Some(Seq::empty()) }
     else if s[0] != '\\' { prepend(encode_utf8(seq![s[0]]), resolve(s.skip(1))) }
@@ -41,7 +40,7 @@ pub open spec fn resolve(s: Seq<char>) -> Option<Seq<u8>> decreases s.len() {
         }
     }
     else if s[1] == '\\' { prepend(seq![92u8], resolve(s.skip(2))) }
-    else { prepend(seq![92u8, s[1] as u8], resolve(s.skip(2))) }
+    else { prepend(seq![92u8] + encode_utf8(seq![s[1]]), resolve(s.skip(2))) }
 }
 /// the unfolding of `resolve`, phrased with nested `skip(1)` as the iterator produces them
 pub proof fn lemma_resolve_step(s: Seq<char>)
@@ -56,7 +55,7 @@ pub proof fn lemma_resolve_step(s: Seq<char>)
             }),
         s.len() >= 2 && s[0] == '\\' && s[1] == '\\' ==> resolve(s) == prepend(seq![92u8], resolve(s.skip(1).skip(1))),
         s.len() >= 2 && s[0] == '\\' && s[1] != '\\' && s[1] != '0' && s[1] != 'x' ==>
-            resolve(s) == prepend(seq![92u8, s[1] as u8], resolve(s.skip(1).skip(1))),
+            resolve(s) == prepend(seq![92u8] + encode_utf8(seq![s[1]]), resolve(s.skip(1).skip(1))),
         // any two-char string made of s[2], s[3] (e.g. the Vec<char> the code collects) parses like seq![s[2], s[3]]
         s.len() >= 4 ==> forall|q: Seq<char>, r: u32| #![trigger radix_u8(q, r)]
             q.len() == 2 && q[0] == s[2] && q[1] == s[3] ==> radix_u8(q, r) == radix_u8(seq![s[2], s[3]], r),
